@@ -48,6 +48,9 @@ func runMode(mode string, rep *Report, replay string) bool {
 	case "ttl":
 		runTTL(rep, replay)
 		return true
+	case "widen":
+		runWiden(rep, replay)
+		return true
 	case "snapfail":
 		runSnapfail(rep, replay)
 		return true
